@@ -604,6 +604,225 @@ def shrink_same(case):
                     yield {**case, "ty": t[:3] + [t[3][:i] + [["t", x]] + t[3][i + 1:]] + t[4:]}
 
 
+# ------------------------------------------------------------------ constructor calls over any iterable (kind "ctor")
+# case ::= {"kind": "ctor", "call": call}
+# call ::= ["either", form, form, [elem..], [elem..]]          tys.Either(left, right)
+#        | ["left", form, form, [val..], [elem..]]              val.Left(vals, right_typ).type_()
+#        | ["right", form, form, [elem..], [val..]]             val.Right(left_typ, vals).type_()
+#        | ["tuple", form, [elem..]] | ["option", form, [elem..]]   tys.Tuple(*it) / tys.Option(*it)
+# elem ::= ["ty", ty] | ["call", call]          val ::= a constant description of tyval_c07c14 (bool / int / float / ..)
+# form ::= how the row is handed to the constructor (FORMS): a list, a tuple, or one of several iterables that are
+#          not sequences, most of them one-shot (a second iteration yields nothing).
+# The rows of tys.Either / val.Left / val.Right are documented as `Iterable`: whatever iterable carries the elements,
+# the type is the sum of exactly those rows, and the property's "eithers take the least upper bound of their element
+# bounds" speaks about those elements.  The type the call DENOTES is printed from the description (the documented
+# meaning of the sugar: Tuple = one row, Option = empty row + row, Either = left row + right row) over the elements
+# (printed from objects built on their own), never from the object the constructor under test returned.
+FORMS = ("list", "tuple", "gen", "iter", "map", "filter", "deque", "chain", "reiter", "oneshot", "islice", "reversed")
+ONE_SHOT = ("gen", "iter", "map", "filter", "chain", "oneshot", "islice", "reversed")
+
+
+class _ReIter:
+    """An iterable that is neither a sequence nor an iterator (only __iter__; can be iterated again)."""
+
+    def __init__(self, xs):
+        self._xs = list(xs)
+
+    def __iter__(self):
+        return iter(list(self._xs))
+
+
+class _OneShot:
+    """A hand-written iterator."""
+
+    def __init__(self, xs):
+        self._xs = list(xs)
+        self._i = 0
+
+    def __iter__(self):
+        return self
+
+    def __next__(self):
+        if self._i >= len(self._xs):
+            raise StopIteration
+        self._i += 1
+        return self._xs[self._i - 1]
+
+
+def as_form(form, xs):
+    import collections
+    import itertools
+    xs = list(xs)
+    if form == "list":
+        return xs
+    if form == "tuple":
+        return tuple(xs)
+    if form == "gen":
+        return (x for x in xs)
+    if form == "iter":
+        return iter(xs)
+    if form == "map":
+        return map(lambda x: x, xs)
+    if form == "filter":
+        return filter(lambda x: True, xs)
+    if form == "deque":
+        return collections.deque(xs)
+    if form == "chain":
+        h = len(xs) // 2
+        return itertools.chain(xs[:h], tuple(xs[h:]))
+    if form == "reiter":
+        return _ReIter(xs)
+    if form == "oneshot":
+        return _OneShot(xs)
+    if form == "islice":
+        return itertools.islice(xs + xs, len(xs))
+    if form == "reversed":
+        return reversed(xs[::-1])
+    raise ValueError(form)
+
+
+def _call_rows(c):
+    """(positions of the element rows in the call description)"""
+    return {"either": [3, 4], "left": [4], "right": [3], "tuple": [2], "option": [2]}[c[0]]
+
+
+def build_elem(e):
+    return build_ty(e[1]) if e[0] == "ty" else build_call(e[1])
+
+
+def build_call(c):
+    """Run the constructor call through the public API; every row is handed over in its form (a fresh iterable)."""
+    from hugr import tys, val
+    k = c[0]
+    row = lambda r: [build_elem(e) for e in r]
+    if k == "either":
+        return tys.Either(as_form(c[1], row(c[3])), as_form(c[2], row(c[4])))
+    if k == "left":
+        return val.Left(as_form(c[1], [tv.build_val(v) for v in c[3]]), as_form(c[2], row(c[4]))).type_()
+    if k == "right":
+        return val.Right(as_form(c[1], row(c[3])), as_form(c[2], [tv.build_val(v) for v in c[4]])).type_()
+    if k == "tuple":
+        return tys.Tuple(*as_form(c[1], row(c[2])))
+    if k == "option":
+        return tys.Option(*as_form(c[1], row(c[2])))
+    raise ValueError(c)
+
+
+def gelem(e) -> str:
+    return gty(build_ty(e[1])) if e[0] == "ty" else gcall(e[1])
+
+
+def gcall(c) -> str:
+    """The type the call denotes, from the description (see the header of this section)."""
+    k = c[0]
+    row = lambda r: glist(gelem(e) for e in r)
+    vrow = lambda vs: glist(gty(build_ty(tv.val_type_desc(v))) for v in vs)
+    if k == "either":
+        rows = [row(c[3]), row(c[4])]
+    elif k == "left":
+        rows = [vrow(c[3]), row(c[4])]
+    elif k == "right":
+        rows = [row(c[3]), vrow(c[4])]
+    elif k == "tuple":
+        rows = [row(c[2])]
+    elif k == "option":
+        rows = ["[]", row(c[2])]
+    else:
+        raise ValueError(c)
+    return gapp("TSum", glist(rows))
+
+
+def call_valid(c):
+    try:
+        build_call(c)
+        gcall(c)
+        return True
+    except Exception:
+        return False
+
+
+def rand_const(rng):
+    r = rng.random()
+    if r < 0.3:
+        return ["bool", rng.random() < 0.5, "const"]
+    if r < 0.5:
+        return ["int", rng.choice([0, 1, 5]), rng.choice([3, 5, 6])]
+    if r < 0.65:
+        return ["float", rng.choice([0.5, 2.0])]
+    if r < 0.8:
+        return ["unitsum", 0, rng.choice([1, 3])]
+    return ["tuple", [rand_const(rng) for _ in range(rng.choice([0, 1, 2]))]]
+
+
+def rand_call(rng, depth):
+    form = lambda: rng.choice(FORMS) if rng.random() < 0.3 else rng.choice(ONE_SHOT)
+
+    def elem():
+        if depth > 0 and rng.random() < 0.3:
+            return ["call", rand_call(rng, depth - 1)]
+        r = rng.random()
+        if r < 0.3:
+            return ["ty", ["qubit"]]
+        if r < 0.45:
+            return ["ty", rng.choice([["bool"], ["usize"]])]
+        return ["ty", rand_ty(rng, rng.choice([0, 1, 1, 2]), False)]
+    row = lambda: [elem() for _ in range(rng.choice([0, 1, 1, 2, 2, 3]))]
+    vals = lambda: [rand_const(rng) for _ in range(rng.choice([0, 1, 1, 2]))]
+    r = rng.random()
+    if r < 0.5:
+        return ["either", form(), form(), row(), row()]
+    if r < 0.65:
+        return ["left", form(), form(), vals(), row()]
+    if r < 0.8:
+        return ["right", form(), form(), row(), vals()]
+    if r < 0.9:
+        return ["tuple", form(), row()]
+    return ["option", form(), row()]
+
+
+def rand_ctor(rng):
+    return {"kind": "ctor", "call": rand_call(rng, rng.choice([0, 0, 1, 1, 2]))}
+
+
+def shrink_call(c):
+    k = c[0]
+    nforms = 1 if k in ("tuple", "option") else 2
+    for p in _call_rows(c):
+        for e in c[p]:
+            if e[0] == "call":
+                yield e[1]                                    # an inner call in place of the whole
+    for p in _call_rows(c):
+        r = c[p]
+        for j, e in enumerate(r):
+            yield c[:p] + [r[:j] + r[j + 1:]] + c[p + 1:]
+        for j, e in enumerate(r):
+            rep = lambda x: c[:p] + [r[:j] + [x] + r[j + 1:]] + c[p + 1:]
+            if e[0] == "call":
+                for a in (["qubit"], ["usize"]):
+                    yield rep(["ty", a])
+                for x in shrink_call(e[1]):
+                    yield rep(["call", x])
+            else:
+                for a in (["qubit"], ["usize"]):
+                    if e[1] != a:
+                        yield rep(["ty", a])
+                for x in list(tv.shrink_ty(e[1]))[:30]:
+                    yield rep(["ty", x])
+    if k in ("left", "right"):
+        p = 3 if k == "left" else 4
+        for j in range(len(c[p])):
+            yield c[:p] + [c[p][:j] + c[p][j + 1:]] + c[p + 1:]
+        # the same rows through the type constructor
+        rows = [[["ty", tv.val_type_desc(v)] for v in c[3]], c[4]] if k == "left" else \
+               [c[3], [["ty", tv.val_type_desc(v)] for v in c[4]]]
+        yield ["either", c[1], c[2]] + rows
+    for i in range(1, 1 + nforms):
+        if c[i] != "list":
+            yield c[:i] + ["list"] + c[i + 1:]
+        if c[i] not in ("list", "gen"):
+            yield c[:i] + ["gen"] + c[i + 1:]
+
+
 B = {"C": "Copyable", "A": "Any"}
 
 
@@ -625,8 +844,12 @@ class C07(fw.Prop):
             "hand the same type back (resolve against a generated registry that is empty / holds other extensions / holds "
             "the extension without the type / knows some of the opaque types, through Type / TypeTypeArg / SequenceArg "
             ".resolve; copy.copy, copy.deepcopy, dataclasses.replace; _to_serial().deserialize()) over opaque types of "
-            "both declared bounds nested in sums, function types and type arguments.  non-trivial = the type has a constituent (depth >= 1) or the "
-            "case is a constructor/join case with >= 2 inputs or a history or a chain")
+            "both declared bounds nested in sums, function types and type arguments; constructor calls whose rows are "
+            "handed over as any iterable (tys.Either, val.Left / val.Right (.type_()), Tuple / Option star-unpacked; rows "
+            "as list, tuple, deque, a re-iterable object, or a one-shot iterator: generator, iter, map, filter, "
+            "itertools.chain / islice, reversed, a hand-written iterator), nested 0-2 levels, judged against the type "
+            "the call denotes (printed from the description), asked twice.  non-trivial = the type has a constituent (depth >= 1) or the "
+            "case is a constructor/join case with >= 2 inputs or a history or a chain or a constructor call")
     trusted = ["indices of a from-parameters bound are naturals (negative Python indices, which would wrap around, are "
                "outside the model and the generator)",
                "serialised bounds are read from `_to_serial().model_dump()` by a pre-order walk over dict entries "
@@ -671,7 +894,31 @@ class C07(fw.Prop):
             {"kind": "static", "elem": ["func", [lin], [lin], []]},
             {"kind": "join", "bs": []},
             {"kind": "join", "bs": ["C", "A", "C"]},
-        ] + self.seq_corpus() + self.same_corpus()
+        ] + self.seq_corpus() + self.same_corpus() + self.ctor_corpus()
+
+    def ctor_corpus(self):
+        """Constructor calls over iterables (seeded round 4): the rows of an Either are whatever the iterable yields."""
+        q, bl = ["ty", ["qubit"]], ["ty", ["bool"]]
+        cc = lambda call: {"kind": "ctor", "call": call}
+        handle = ["ty", ["ext", {"ext": "e.one", "name": "box", "params": [["type", "A"]], "bound": ["P", [0]]},
+                         [["t", ["qubit"]]]]]
+        return [
+            # C07-j: a validation pass over the rows before they are stored exhausts one-shot iterators
+            cc(["either", "gen", "list", [q], []]),
+            cc(["either", "list", "iter", [], [q]]),
+            cc(["either", "gen", "iter", [bl, q], [bl]]),                                     # the demo
+            cc(["either", "map", "filter", [["call", ["tuple", "list", [bl]]]], [["call", ["option", "list", [q]]]]]),
+            cc(["tuple", "list", [bl, ["call", ["either", "map", "filter", [bl], [q]]]]]),
+            cc(["left", "list", "gen", [["bool", True, "const"]], [q]]),                      # val.Left forwards its row
+            cc(["right", "oneshot", "gen", [q], [["bool", False, "const"]]]),
+            cc(["left", "gen", "tuple", [["int", 1, 5], ["float", 0.5]], [handle]]),
+            cc(["either", "oneshot", "chain", [handle], [bl, q]]),                            # written bounds too
+            cc(["either", "islice", "reversed", [bl, q], [q, bl]]),
+            cc(["either", "deque", "reiter", [q], [bl]]),
+            cc(["either", "tuple", "list", [bl], [bl, bl]]),
+            cc(["tuple", "gen", [bl, q]]),
+            cc(["option", "iter", [q]]),
+        ]
 
     def same_corpus(self):
         """Chains (seeded round 3): a declared bound survives every operation that hands the same type back."""
@@ -768,6 +1015,9 @@ class C07(fw.Prop):
         # chains of operations that hand the same type back (drawn last: the older streams are unchanged)
         for _ in range(320 * k):
             cases.append(rand_same(rng))
+        # constructor calls whose rows are handed over as lists, tuples and (mostly one-shot) iterables (drawn last)
+        for _ in range(300 * k):
+            cases.append(rand_ctor(rng))
         return cases
 
     # ------------------------------------------------------------------ implementation
@@ -797,6 +1047,9 @@ class C07(fw.Prop):
                 [guard(lambda: StaticArray(o).type_bound().value)] if static else []))
         if k == "same":
             return run_same(case, lambda o, reg: obs_ty(o))
+        if k == "ctor":
+            o = build_call(case["call"])
+            return [obs_ty(o), obs_ty(o)]               # asked twice: the answer does not wear off
         return obs_ty(build_ty(case["ty"]))
 
     def literal(self, case, obs, ctx):
@@ -836,12 +1089,17 @@ class C07(fw.Prop):
                 else:
                     steps.append("(SOp %s None None None None)" % SAME_OPS[op[0]])
             return "(CSame %s %s %s %s)" % (gs[0][1], gs[0][0], trip(obs[0]), glist(steps))
+        if k == "ctor":
+            # both observations of the constructed object are judged against the type the call DENOTES (gcall: from
+            # the description, not from the object)
+            g = gcall(case["call"])
+            return gapp("CSeq", glist(lit_ty("STy", g, o) for o in obs))
         return lit_ty("CTy", gty(build_ty(case["ty"])), obs)
 
     def nontrivial(self, case, obs):
         if case["kind"] == "ty":
             return tv.depth_of(case["ty"]) >= 1
-        if case["kind"] in ("static", "seq", "same"):
+        if case["kind"] in ("static", "seq", "same", "ctor"):
             return True
         return len(case["bs"]) >= 2
 
@@ -860,6 +1118,9 @@ class C07(fw.Prop):
             return "history:%s:%s" % (case["ty"][0], "+".join(st["op"] for st in case["steps"]))
         if k == "same":
             return "same:%s:%s" % (case["ty"][0], "+".join(o[0] for o in case["ops"]))
+        if k == "ctor":
+            c = case["call"]
+            return "ctor:%s:%s" % (c[0], "+".join(c[1:2 if c[0] in ("tuple", "option") else 3]))
         return "join"
 
     def shrink(self, case):
@@ -878,6 +1139,10 @@ class C07(fw.Prop):
             for c in shrink_same(case):
                 if same_valid(c):
                     yield c
+        elif k == "ctor":
+            for c in shrink_call(case["call"]):
+                if call_valid(c):
+                    yield {"kind": "ctor", "call": c}
         else:
             bs = case["bs"]
             for i in range(len(bs)):
@@ -903,6 +1168,15 @@ class C07(fw.Prop):
                 out.append({**case, "ty": c})
             for _ in range(300):
                 out.append(rand_same(rng))
+        elif case["kind"] == "ctor":
+            c = case["call"]
+            for p in _call_rows(c):
+                out += [{"kind": "ctor", "call": e[1]} for e in c[p] if e[0] == "call"]
+            for f in FORMS:
+                nf = 1 if c[0] in ("tuple", "option") else 2
+                out.append({"kind": "ctor", "call": c[:1] + [f] * nf + c[1 + nf:]})
+            for _ in range(300):
+                out.append(rand_ctor(rng))
         elif case["kind"] in ("ty", "static"):
             t = case.get("ty", case.get("elem"))
             todo = [t]
@@ -924,7 +1198,8 @@ class C07(fw.Prop):
     def distribution(self, cases, observations):
         d = {"kinds": {}, "depth": {}, "constructors": {}, "bounds": {}, "raises": 0, "static": {},
              "history_ops": {}, "history_copy": {}, "history_root": {}, "history_bound_changed": 0,
-             "chain_ops": {}, "chain_registry": {}, "chain_linear_opaque": 0, "chain_raised": 0}
+             "chain_ops": {}, "chain_registry": {}, "chain_linear_opaque": 0, "chain_raised": 0,
+             "ctor_calls": {}, "ctor_forms": {}, "ctor_one_shot_row_with_linear": 0, "ctor_bounds": {}}
         for c, o in zip(cases, observations):
             k = c["kind"]
             d["kinds"][k] = d["kinds"].get(k, 0) + 1
@@ -956,7 +1231,28 @@ class C07(fw.Prop):
                 d["chain_linear_opaque"] += int('"opaque"' in json.dumps(c["ty"]) and any(
                     x[0] == "opaque" and x[4] == "A" for x in _all_nodes(c["ty"])))
                 d["chain_raised"] += int(any(x[0] == "exc" for x in o[1:]))
+            elif k == "ctor":
+                for cl in _all_calls(c["call"]):
+                    d["ctor_calls"][cl[0]] = d["ctor_calls"].get(cl[0], 0) + 1
+                    nf = 1 if cl[0] in ("tuple", "option") else 2
+                    for f in cl[1:1 + nf]:
+                        d["ctor_forms"][f] = d["ctor_forms"].get(f, 0) + 1
+                    if cl[0] in ("either", "left", "right"):
+                        for f, p in zip(cl[1:3], (3, 4)):
+                            if f in ONE_SHOT and p in _call_rows(cl) and any(
+                                    e[0] == "ty" and not tv.desc_copyable(e[1]) for e in cl[p]):
+                                d["ctor_one_shot_row_with_linear"] += 1
+                key = o[0]["bound"][1] if o[0]["bound"][0] == "ok" else "raises"
+                d["ctor_bounds"][key] = d["ctor_bounds"].get(key, 0) + 1
         return d
+
+
+def _all_calls(c):
+    yield c
+    for p in _call_rows(c):
+        for e in c[p]:
+            if e[0] == "call":
+                yield from _all_calls(e[1])
 
 
 def _all_nodes(t):
